@@ -196,6 +196,7 @@ def show(t):
     if k == 'top': return 'TOP<%s>' % (t[1],)
     if k == 'carried': return '%s@loop%s' % (t[1], t[2])
     if k == 'starred': return '*' + show(t[1])
+    if k == 'distinct': return 'DISTINCT{%s}(%s)' % (' '.join('for %s in %s%s' % (show(b), show(b[3]), '' if g == TRUE else ' if ' + show(g)) for b, g in t[1]), show(t[2]))
     if k == 'lpvar': return 'LpVar<%s>' % show(t[1])
     if k == 'fstr': return 'F"' + ''.join(x[1] if x[0] == 'const' and isinstance(x[1], str) else '{' + show(x) + '}' for x in t[1]) + '"'
     if k == 'fold': return 'FOLD<%s>(%s; %s)' % (t[1], show(t[2]), show(t[3]))
